@@ -2,7 +2,7 @@
    a predicate [Rg]), so does every term of the result of the DSL constructors and operators - or the result is an error
    value. Instances: the vocabulary predicates of C06, the well-formedness needed by the semantic theorems of C10. *)
 From Coq Require Import List Bool Arith Permutation.
-From Y0 Require Import Base.ListSet Dsl.Syntax Dsl.Text Dsl.Build Proofs.SortP Proofs.ExprP Proofs.SurgeryP.
+From Y0 Require Import Base.ListSet Dsl.Syntax Dsl.Text Dsl.Build Dsl.Canon Proofs.SortP Proofs.ExprP Proofs.SurgeryP.
 Import ListNotations.
 
 Section AtomsP.
@@ -194,4 +194,106 @@ Section AtomsP.
     - apply PA_sum_simplify; assumption.
     - unfold PA. cbn [is_err all_atoms orb]. rewrite Hpl, Hup. reflexivity.
   Qed.
+
+  (* ---- Fraction.simplify ---- *)
+  Lemma cancel_one_incl x : forall den den', cancel_one x den = Some den' -> incl den' den.
+  Proof.
+    induction den as [|d t IH]; intros den' H; [discriminate|]. cbn [cancel_one] in H. destruct (expr_eqb x d).
+    - injection H as <-. intros y Hy. right. exact Hy.
+    - destruct (cancel_one x t) as [t'|] eqn:E; [|discriminate]. injection H as <-. intros y [<-|Hy]; [left; reflexivity|right; apply (IH t' eq_refl); exact Hy].
+  Qed.
+
+  Lemma helper_incl : forall num den, incl (fst (simplify_parts_helper num den)) num /\ incl (snd (simplify_parts_helper num den)) den.
+  Proof.
+    induction num as [|x t IH]; intros den; cbn [simplify_parts_helper]; [split; [apply incl_refl|apply incl_refl]|].
+    destruct (cancel_one x den) as [den'|] eqn:E.
+    - destruct (IH den') as [H1 H2]. split; [intros y Hy; right; apply H1; exact Hy|intros y Hy; eapply cancel_one_incl; [exact E|apply H2; exact Hy]].
+    - destruct (IH den) as [H1 H2]. cbn [fst snd]. split; [intros y [<-|Hy]; [left; reflexivity|right; apply H1; exact Hy]|exact H2].
+  Qed.
+
+  Lemma forallb_incl {T} (p : T -> bool) l l' : incl l' l -> forallb p l = true -> forallb p l' = true.
+  Proof. intros Hi H. rewrite forallb_forall in *. intros x Hx. apply H. apply Hi. exact Hx. Qed.
+
+  Lemma PA_simplify_parts num den : forallb PA num = true -> forallb PA den = true -> PA (simplify_parts num den) = true.
+  Proof.
+    intros Hn Hd. unfold simplify_parts. destruct (helper_incl num den) as [H1 H2].
+    pose proof (forallb_incl PA num _ H1 Hn) as Hn'. pose proof (forallb_incl PA den _ H2 Hd) as Hd'.
+    destruct (fst (simplify_parts_helper num den)) as [|n0 nt]; destruct (snd (simplify_parts_helper num den)) as [|d0 dt].
+    - reflexivity.
+    - apply PA_truediv; [reflexivity|apply PA_prod_safe; exact Hd'].
+    - apply PA_prod_safe. exact Hn'.
+    - apply PA_mk_frac; apply PA_prod_safe; assumption.
+  Qed.
+
+  Lemma PA_factors e : PA e = true -> forallb PA (match e with EProd es => es | _ => [e] end) = true.
+  Proof. intros H. destruct e; try (cbn [forallb]; rewrite H; reflexivity). apply PA_plain_prod. exact H. Qed.
+
+  Lemma PA_frac_simplify_fuel fuel : forall e, PA e = true -> PA (frac_simplify_fuel fuel e) = true.
+  Proof.
+    induction fuel as [|f IH]; intros e He; destruct e as [| | |n d| | | |]; cbn [frac_simplify_fuel]; try exact He;
+      destruct (PA_frac_parts _ _ He) as [Hn Hd].
+    - destruct (is_one d); [exact Hn|]. destruct (is_zero n); [exact Hn|]. destruct (is_one n).
+      + destruct d; exact He.
+      + destruct (expr_eqb n d); [reflexivity|].
+        destruct n, d; try exact He;
+          try (apply PA_simplify_parts; try (apply PA_plain_prod; assumption); cbn [forallb]; rewrite ?Hn, ?Hd; reflexivity).
+    - destruct (is_one d); [exact Hn|]. destruct (is_zero n); [exact Hn|]. destruct (is_one n).
+      + destruct d as [| | |n' d'| | | |]; try exact He. apply IH. unfold frac_flip.
+        destruct (PA_frac_parts _ _ Hd) as [Hn' Hd']. apply PA_mk_frac; assumption.
+      + destruct (expr_eqb n d); [reflexivity|].
+        destruct n, d; try exact He;
+          try (apply PA_simplify_parts; try (apply PA_plain_prod; assumption); cbn [forallb]; rewrite ?Hn, ?Hd; reflexivity).
+  Qed.
+
+  Lemma PA_frac_simplify e : PA e = true -> PA (frac_simplify e) = true.
+  Proof. apply PA_frac_simplify_fuel. Qed.
+
+  (* ---- canonicalize: needs the predicate to be insensitive to the order of the variables ---- *)
+  Hypothesis A_perm : forall pop ch ch' pa pa', Permutation ch ch' -> Permutation pa pa' -> A pop ch pa = true -> A pop ch' pa' = true.
+
+  Lemma canon_sorted_perm' old o l l' : canon_sorted old o l = Some l' -> Permutation l l'.
+  Proof. unfold canon_sorted. destruct (forallb _ l); [|discriminate]. intros E. injection E as <-. apply stable_sort_perm. Qed.
+
+  Lemma PA_factors_of old r : PA r = true -> forallb PA (factors_of old r) = true.
+  Proof. intros H. unfold factors_of. destruct old; [cbn [forallb]; rewrite H; reflexivity|]. apply PA_factors. exact H. Qed.
+
+  Theorem PA_cz old o : forall e, PA e = true -> PA (fst (cz old o e)) = true /\ forallb PA (snd (cz old o e)) = true.
+  Proof.
+    induction e as [pop ch pa|es IH|e rs IH|n d IHn IHd| | |dm cd|k] using expr_ind'; intros He.
+    - assert (Hr : PA (match canon_sorted old o ch, canon_sorted old o pa with Some c, Some p => prob_raw pop c p | _, _ => EErr KeyError end) = true).
+      { destruct (canon_sorted old o ch) as [c|] eqn:Ec; [|reflexivity]. destruct (canon_sorted old o pa) as [p|] eqn:Ep; [|reflexivity].
+        unfold prob_raw. destruct c as [|c0 ct] eqn:Ecc; [reflexivity|]. rewrite <- Ecc in *. apply PA_of_atoms. cbn [all_atoms].
+        unfold PA in He. cbn in He. eapply A_perm; [eapply canon_sorted_perm'; exact Ec|eapply canon_sorted_perm'; exact Ep|exact He]. }
+      cbn [cz fst snd]. split; [exact Hr|apply PA_factors_of; exact Hr].
+    - pose proof (PA_plain_prod _ He) as Hes. cbn [cz fst snd].
+      assert (Hl : forallb PA ((fix go (es0 : list expr) : list expr := match es0 with [] => [] | x :: t => snd (cz old o x) ++ go t end) es) = true).
+      { clear He. induction IH as [|x t Hx _ IHt]; [reflexivity|]. cbn [forallb] in Hes. apply andb_true_iff in Hes. destruct Hes as [H1 H2].
+        rewrite forallb_app. rewrite (proj2 (Hx H1)). apply IHt. exact H2. }
+      split; [apply PA_prod_safe_gen; exact Hl|exact Hl].
+    - unfold PA in He. cbn [is_err all_atoms orb] in He. apply andb_true_iff in He. destruct He as [He Hrs].
+      destruct (IH (PA_of_atoms _ He)) as [Hc _]. cbn [cz fst snd].
+      assert (Hr : PA (sum_safe_gen old (fst (cz old o e)) rs true) = true) by (apply PA_sum_safe_gen; assumption).
+      split; [exact Hr|apply PA_factors_of; exact Hr].
+    - destruct (PA_frac_parts _ _ He) as [Hn Hd]. destruct (IHn Hn) as [Hn' _]. destruct (IHd Hd) as [Hd' _]. cbn [cz fst snd].
+      set (n' := fst (cz old o n)) in *. set (d' := fst (cz old o d)) in *.
+      assert (Hr : PA (if is_err n' then n' else if is_err d' then d' else if is_one d' then n' else if expr_eqb n' d' then EOne
+                       else if old then truediv_old n' d' else truediv n' d') = true).
+      { destruct (is_err n'); [exact Hn'|]. destruct (is_err d'); [exact Hd'|]. destruct (is_one d'); [exact Hn'|].
+        destruct (expr_eqb n' d'); [reflexivity|]. destruct old; [|apply PA_truediv; assumption].
+        (* the pre-repair division: same constructors *)
+        unfold truediv_old. destruct n', d'; try exact Hn'; try exact Hd'; try reflexivity; try (apply PA_mk_frac; assumption);
+          try (destruct (PA_frac_parts _ _ Hn') as [A1 A2]); try (destruct (PA_frac_parts _ _ Hd') as [B1 B2]);
+          try (apply PA_mk_frac; try apply PA_mul; assumption). }
+      split; [exact Hr|apply PA_factors_of; exact Hr].
+    - cbn [cz fst snd forallb]. split; reflexivity.
+    - cbn [cz fst snd forallb]. split; reflexivity.
+    - cbn [cz fst snd forallb]. split; reflexivity.
+    - cbn [cz fst snd forallb]. split; reflexivity.
+  Qed.
+
+  Lemma PA_canonicalize old o e : PA e = true -> PA (canonicalize old o e) = true.
+  Proof. intros H. apply PA_cz. exact H. Qed.
+
+  Lemma PA_canonicalize_top old e ordering : PA e = true -> PA (canonicalize_top old e ordering) = true.
+  Proof. apply PA_canonicalize. Qed.
 End AtomsP.
